@@ -1293,7 +1293,16 @@ func (e *Exec) builtin(name string, args []Value) Value {
 			s.Len = n
 			return s
 		}
-		nc := 2*s.Cap + t.Len
+		// growth like the Go runtime (small slices double; size-class rounding is not modelled)
+		nc := 2 * s.Cap
+		if n > nc {
+			nc = n
+		} else if s.Cap >= 256 {
+			nc = s.Cap + (s.Cap+3*256)/4
+			if nc < n {
+				nc = n
+			}
+		}
 		arr := &ArrayV{E: make([]Value, nc)}
 		for i := 0; i < s.Len; i++ {
 			arr.E[i] = copyValue(s.Arr.V.(*ArrayV).E[s.Off+i])
